@@ -1180,6 +1180,40 @@ fn gen_c04(o: &mut Out, r: &mut Rng, d: &GDict, tier: &str) {
         o.case(&format!("deepnest depth={}", depth));
         o.line(&format!("decq {}", hex(&f)));
     }
+    // width: very many small AVPs side by side - at top level, inside one group, inside a group inside a group (the
+    // work per frame must stay linear in its size; what the transport admits is 1 MiB, what the protocol allows 16 MiB)
+    {
+        let g = d.by_type(T_GROUPED).into_iter().find(|g| g.vendor.is_none()).unwrap().code;
+        let u = d.by_type(T_U32).into_iter().find(|g| g.vendor.is_none()).unwrap().code;
+        let mut sizes: Vec<usize> = vec![1 << 12, 1 << 16, 1 << 18, (1 << 20) - 64];
+        if thorough {
+            sizes.extend([1 << 22, (1 << 24) - 64]);
+        }
+        for total in sizes {
+            for shape in 0..4 {
+                // member: an empty group (8 octets) or an Unsigned32 (12 octets)
+                let member: Vec<u8> = if shape % 2 == 0 { [&g.to_be_bytes()[..], &[0x40, 0, 0, 8]].concat() } else { [&u.to_be_bytes()[..], &[0x40, 0, 0, 12, 0, 0, 0, 7]].concat() };
+                let wrap = shape / 2; // 0: top level, 1: inside one group
+                let room = total - 20 - 8 * wrap;
+                let k = room / member.len();
+                let body_len = k * member.len();
+                let mut f = Vec::with_capacity(total);
+                f.push(1);
+                f.extend(&((20 + 8 * wrap + body_len) as u32).to_be_bytes()[1..]);
+                f.extend([0x80, 0, 1, 16, 0, 0, 0, 4, 0, 0, 0, 1, 0, 0, 0, 2]);
+                if wrap == 1 {
+                    f.extend(g.to_be_bytes());
+                    f.push(0x40);
+                    f.extend(&((8 + body_len) as u32).to_be_bytes()[1..]);
+                }
+                for _ in 0..k {
+                    f.extend(&member);
+                }
+                o.case(&format!("wide members={} shape={}", k, shape));
+                o.line(&format!("decq {}", hex(&f)));
+            }
+        }
+    }
     // havoc
     let n_havoc = if thorough { 2000000 } else { 12000 };
     for _ in 0..n_havoc {
